@@ -63,6 +63,8 @@ deriving Repr
 structure XStore where
   cells : List Cell
   names : List (Option Ref)
+  /-- the sequence cells that are Python tuples (holding at least one mutable element): not editable -/
+  tups : List Nat := []
 deriving Repr
 
 def init : XStore := { cells := [], names := [] }
@@ -100,7 +102,8 @@ def XStore.root (s : XStore) (r : Nat) : Option Ref := (s.names[r]?).join
 
 def XStore.target (s : XStore) (t : Target) : Option Ref := (s.root t.root).bind (resolveRef s.cells · t.path)
 
-def XStore.bind (s : XStore) (cs : List Cell) (n : Option Ref) : XStore := { cells := cs, names := s.names ++ [n] }
+def XStore.bind (s : XStore) (cs : List Cell) (n : Option Ref) : XStore :=
+  { s with cells := cs, names := s.names ++ [n] }
 def XStore.skip (s : XStore) : XStore := s.bind s.cells none
 
 /-! ### fresh cells for a value (what the constructors of the mutable classes build) -/
@@ -200,9 +203,10 @@ def withListX (s : XStore) (l : Ref) (immErr : Exc) (f : List Ref → Except Exc
     match s.cells[c]? with
     | none => (s.skip, .badRef)
     | some cell =>
-      match f cell.refs with
-      | .error e => (s.skip, .err e)
-      | .ok (cs, items) => (s.bind (setCellRefs cs c items) none, .done)
+      if s.tups.contains c then (s.skip, .err immErr)
+      else match f cell.refs with
+        | .error e => (s.skip, .err e)
+        | .ok (cs, items) => (s.bind (setCellRefs cs c items) none, .done)
 
 def observeX (s : XStore) (t : Target) (f : Ref → Val → Out) : XStore × Out :=
   match s.target t with
@@ -447,5 +451,73 @@ def runX : XStore → List OpX → XStore × List Out
       let r1 := stepX s op
       let r2 := runX r1.1 ops
       (r2.1, r1.2 :: r2.2)
+
+/-! ### container kinds (T2 only): sequences given as list / tuple / iterator / subclass -/
+
+inductive OpY
+  | x (op : OpX)
+  /-- `[e₁,…]` (`isList`) or `(e₁,…)` of existing inputs (`outs = false`) / outputs, bound to a name;
+      subclasses of `list`/`tuple` behave alike -/
+  | mkSeq (outs : Bool) (isList : Bool) (items : List Target)
+  /-- `CTransaction(<vin sequence>, <vout sequence>, lock, ver[, <witness>])`: the constructor iterates its
+      arguments (any iterable: list, tuple, iterator, subclass) and takes an immutable copy of every element -/
+  | newCTxFrom (vin vout : Target) (lock : Nat) (ver : Int) (wit : Option Target)
+deriving Repr
+
+def itemVals (cs : List Cell) (rs : List Ref) : Option (List Val) := mapO (eval cs) rs
+
+def stepY (s : XStore) : OpY → XStore × Out
+  | .x op => stepX s op
+  | .mkSeq outs isList items =>
+      match mapO s.target items with
+      | none => (s.skip, .badRef)
+      | some rs =>
+        let ek := if outs then 2 else 1
+        if rs.any (fun r => refKind s.cells r != some ek) then (s.skip, .na)
+        else if !isList && rs.all (fun r => !r.isMut) then
+          -- a tuple of immutable objects is a value
+          match itemVals s.cells rs with
+          | none => (s.skip, .badRef)
+          | some vs =>
+            let v : Option Val := if outs then (mapO asTxOut vs).map .outs else (mapO asTxIn vs).map .ins
+            match v with
+            | some v => (s.bind s.cells (some (.val v)), .created)
+            | none => (s.skip, .badRef)
+        else
+          let a := allocCell s.cells ⟨.seq (if outs then .outs else .ins), rs⟩
+          let s' := if isList then s else { s with tups := s.cells.length :: s.tups }
+          (s'.bind a.1 (some a.2), .created)
+  | .newCTxFrom vin vout lock ver wit =>
+      match s.target vin, s.target vout, wit.map s.target with
+      | some rvi, some rvo, w =>
+        if refKind s.cells rvi ≠ some 8 || refKind s.cells rvo ≠ some 9 then (s.skip, .na)
+        else
+          let wv : Option (Option Val) := match w with
+            | none => some (some (.wit []))
+            | some none => none
+            | some (some rw) => if refKind s.cells rw ≠ some 4 then some none else (eval s.cells rw).map some
+          match wv with
+          | none => (s.skip, .badRef)
+          | some none => (s.skip, .na)
+          | some (some (.wit ws)) =>
+            if lock ≤ 0xffffffff then
+              match eval s.cells rvi, eval s.cells rvo with
+              | some (.ins li), some (.outs lo) =>
+                -- `CTxIn.from_txin` validates the mutable elements it copies
+                let mutItemsOk : Bool :=
+                  match rvi with
+                  | .val _ => true
+                  | .cell c =>
+                    match s.cells[c]? with
+                    | none => true
+                    | some cell => (cell.refs.zip li).all fun (r, i) => !r.isMut || validTxIn i
+                if mutItemsOk then
+                  (s.bind s.cells (some (.val (.tx { nVersion := ver, vin := li, vout := lo, wit := ws, nLockTime := lock }))),
+                    .created)
+                else (s.skip, .err .valueerr)
+              | _, _ => (s.skip, .badRef)
+            else (s.skip, .err .valueerr)
+          | some (some _) => (s.skip, .badRef)
+      | _, _, _ => (s.skip, .badRef)
 
 end BtcVerif.Spec.AliasSem
